@@ -336,3 +336,76 @@ Example real_loop_keeps_it :
   let s := drun b cancel_witness dinit in
   exists more, replies (d_done (drun b more s)) = [1; 2].
 Proof. exists (settle (fun _ => [65]) 40 (drun (fun _ => [65]) cancel_witness dinit)). vm_compute. reflexivity. Qed.
+
+(* ---------- the schedule the harness forces (Check/CodecCheck.run_driver): replies come out in completion order ---------- *)
+Section Forced.
+Variable body : msg -> list N.
+
+Definition dispatch_all (reqs : list N) : list dev := flat_map (fun id => [VReq id; VDispatch]) reqs.
+Definition complete_one (id : N) : list dev := [VComplete id; VRecv; VAcquire WDriver; VWrite (length (enc body (MReply id))); VRelease].
+
+Definition idle_with (pending : list N) (done : list msg) (reqs : list N) (out : list N) : dst :=
+  {| d_inq := []; d_pending := pending; d_chan := []; d_hold := None; d_logq := []; d_lhold := None; d_lock := None;
+     d_out := out; d_done := done; d_req := reqs; d_emit := [] |}.
+
+Lemma dispatch_all_run reqs : forall pend done rq out,
+  drun body (dispatch_all reqs) (idle_with pend done rq out) = idle_with (pend ++ reqs) done (rq ++ reqs) out.
+Proof.
+  induction reqs as [|id reqs IH]; intros pend done rq out; cbn [dispatch_all flat_map app].
+  - rewrite !app_nil_r. reflexivity.
+  - unfold Driver.drun. cbn [fold_left Driver.dstepm idle_with d_inq d_pending d_chan d_hold d_logq d_lhold d_lock d_out d_done d_req d_emit app driver_idle lock_owner].
+    change (fold_left (Driver.dstepm body) (flat_map (fun id0 => [VReq id0; VDispatch]) reqs) ?s) with (Driver.drun body (dispatch_all reqs) s).
+    specialize (IH (pend ++ [id]) done (rq ++ [id]) out). unfold idle_with in *. rewrite IH, <- !app_assoc. reflexivity.
+Qed.
+
+Lemma skipn_all_nil {A} (l : list A) : skipn (length l) l = [].
+Proof. apply skipn_all. Qed.
+
+Lemma complete_one_run id pend done rq out : existsb (N.eqb id) pend = true ->
+  drun body (complete_one id) (idle_with pend done rq out) =
+  idle_with (remove1 id pend) (done ++ [MReply id]) rq (out ++ enc body (MReply id)).
+Proof.
+  intros He. unfold complete_one, Driver.drun.
+  destruct (enc_nonempty body (MReply id)) as [x [r Er]].
+  cbn [fold_left Driver.dstepm idle_with d_inq d_pending d_chan d_hold d_logq d_lhold d_lock d_out d_done d_req d_emit app driver_idle lock_owner].
+  rewrite He.
+  cbn [fold_left Driver.dstepm idle_with d_inq d_pending d_chan d_hold d_logq d_lhold d_lock d_out d_done d_req d_emit app driver_idle lock_owner].
+  rewrite Er.
+  cbn [fold_left Driver.dstepm d_inq d_pending d_chan d_hold d_logq d_lhold d_lock d_out d_done d_req d_emit].
+  rewrite firstn_all, skipn_all_nil.
+  cbn [fold_left Driver.dstepm set_lock d_inq d_pending d_chan d_hold d_logq d_lhold d_lock d_out d_done d_req d_emit].
+  reflexivity.
+Qed.
+
+Lemma existsb_remove1_other id x l : x <> id -> existsb (N.eqb x) (remove1 id l) = existsb (N.eqb x) l.
+Proof.
+  intros Hne. induction l as [|y l IH]; [reflexivity|]. cbn [remove1 existsb].
+  destruct (N.eqb_spec y id) as [->|Hy].
+  - destruct (N.eqb_spec x id); [congruence|reflexivity].
+  - cbn [existsb]. rewrite IH. reflexivity.
+Qed.
+
+Lemma complete_all_run order : forall pend done rq out, NoDup order -> (forall id, In id order -> existsb (N.eqb id) pend = true) ->
+  replies (d_done (drun body (flat_map complete_one order) (idle_with pend done rq out))) = replies done ++ order.
+Proof.
+  induction order as [|id order IH]; intros pend done rq out Hnd Hin; cbn [flat_map].
+  - cbn. rewrite app_nil_r. reflexivity.
+  - rewrite drun_app, (complete_one_run id pend done rq out (Hin id (or_introl eq_refl))).
+    inversion Hnd as [|? ? Hni Hnd']; subst.
+    rewrite IH; [|exact Hnd'|].
+    + rewrite replies_app. cbn [replies]. rewrite <- app_assoc. reflexivity.
+    + intros x Hx. rewrite existsb_remove1_other; [apply Hin; right; exact Hx|]. intros ->. exact (Hni Hx).
+Qed.
+
+(* all requests dispatched, then the handlers released one by one in [order], each reply forwarded and written before the next
+   handler is released: the replies appear on the wire in exactly that order *)
+Theorem forced_schedule_replies_in_completion_order reqs order :
+  NoDup order -> incl order reqs ->
+  replies (d_done (drun body (dispatch_all reqs ++ flat_map complete_one order) dinit)) = order.
+Proof.
+  intros Hnd Hincl. rewrite drun_app.
+  change dinit with (idle_with [] [] [] []). rewrite dispatch_all_run. cbn [app].
+  rewrite complete_all_run; [reflexivity|exact Hnd|].
+  intros id Hid. apply existsb_exists. exists id. split; [apply Hincl, Hid|apply N.eqb_refl].
+Qed.
+End Forced.
